@@ -215,6 +215,66 @@ fn race_body(r: &Race) -> Result<(), String> {
     }
 }
 
+// --- an unrelated child process is exec'ed while handles are alive ---------------------------------
+
+/// The only sender handle of a channel is one that was *received inside a message* (through each
+/// receive variant). The program then execs an unrelated child that stays alive, and drops the
+/// handle: no sender can exist any more, so the receiver must be told 'disconnected' - which it is
+/// not if the child inherited the descriptor.
+fn exec_body(how: &u8) -> Result<(), String> {
+    use ipc_channel::ipc::{IpcReceiverSet, IpcSelectionResult};
+    use std::io::{BufRead, BufReader};
+    let (tx, rx) = ipc::channel::<u32>().map_err(|e| e.to_string())?;
+    let (ctx, crx) = ipc::channel::<IpcSender<u32>>().map_err(|e| e.to_string())?;
+    ctx.send(tx).map_err(|e| e.to_string())?;
+    drop(ctx);
+    let tx2: IpcSender<u32> = match *how {
+        0 => crx.recv().map_err(|e| format!("{:?}", e))?,
+        1 => crx.try_recv().map_err(|e| format!("{:?}", e))?,
+        2 => crx.try_recv_timeout(Duration::from_secs(5)).map_err(|e| format!("{:?}", e))?,
+        _ => {
+            let mut set = IpcReceiverSet::new().map_err(|e| e.to_string())?;
+            set.add(crx).map_err(|e| e.to_string())?;
+            let mut got = None;
+            for ev in set.select().map_err(|e| e.to_string())? {
+                if let IpcSelectionResult::MessageReceived(_, m) = ev {
+                    got = Some(m.to::<IpcSender<u32>>().map_err(|e| e.to_string())?);
+                }
+            }
+            got.ok_or("select returned no message")?
+        },
+    };
+    // an unrelated child, fully exec'ed before we go on (it says so)
+    let mut child = std::process::Command::new("/proc/self/exe")
+        .arg("--idle")
+        .stdin(std::process::Stdio::piped())
+        .stdout(std::process::Stdio::piped())
+        .spawn()
+        .map_err(|e| format!("MACHINERY: cannot spawn the idle child: {}", e))?;
+    let mut line = String::new();
+    BufReader::new(child.stdout.take().unwrap()).read_line(&mut line).map_err(|e| format!("MACHINERY: idle child: {}", e))?;
+    if line.trim() != "ready" {
+        return Err(format!("MACHINERY: idle child said {:?}", line));
+    }
+    tx2.send(5).map_err(|e| e.to_string())?;
+    drop(tx2);
+    let first = rx.recv().map_err(|e| format!("{:?}", e))?;
+    let verdict = match rx.try_recv_timeout(Duration::from_millis(1500)) {
+        Err(TryRecvError::IpcError(IpcError::Disconnected)) => Ok(()),
+        other => Err(format!(
+            "every sender handle has been dropped (the last one had been received inside a message by variant {}), yet the receiver is told {:?} instead of 'disconnected' while an unrelated exec'ed child is alive",
+            how,
+            other.map(|_| "a message")
+        )),
+    };
+    drop(child.stdin.take());
+    let _ = child.wait();
+    if first != 5 {
+        return Err("wrong message".into());
+    }
+    verdict
+}
+
 pub fn scenarios(tier: Tier) -> Vec<Scenario> {
     let mut v = Vec::new();
     for shape in [Shape::TwoClones, Shape::LastSendThenDrop, Shape::InTransitCarrierDropped, Shape::InTransitExtractedThenDropped] {
@@ -274,6 +334,22 @@ fn run_all(rep: &mut Report, tier: Tier) {
                            "states": g.states, "transitions": g.paths.len(), "depth_reached": g.depth_reached, "every_history_up_to_depth_covered": complete_to_depth}));
         rep.sample(json!({"model_path": g.paths[g.paths.len() * 2 / 3]}));
     }
+    if !cfg!(feature = "inproc") {
+        let hows: Vec<u8> = vec![0, 1, 2, 3];
+        let mut efails = Vec::new();
+        super::sweep(&hows, 60.0, &|_| Cfg::default(), &exec_body, &mut |_, c, out| {
+            n += 1;
+            match super::describe(out) {
+                Ok(_) => {},
+                Err(e) if e.contains("MACHINERY") => rep.machinery(e),
+                Err(e) => efails.push((*c, e)),
+            }
+        });
+        for (c, e) in efails {
+            rep.fail(&format!("{} :: exec case {}", e, c), json!({"engine": "exec-case", "how": c}));
+        }
+        rep.set("exec_cases", json!(hows.len()));
+    }
     rep.set("model_graphs", json!(bounds));
     rep.set("model_states", json!(states));
     rep.set("model_transitions", json!(transitions));
@@ -298,13 +374,21 @@ fn run_all(rep: &mut Report, tier: Tier) {
         rep.set("exhaustive", json!(true));
         rep.set("bound_note", json!("exhaustive within the stated bounds: every history up to the depth bound of each model graph (model_graphs) and every schedule up to the deviation bound of each scenario; deeper histories are not covered"));
     }
-    rep.set("rule", json!("model part: BFS over the reference model's state graph (operations clone / drop / send / embed sender / embed receiver / receive x3 variants / drop receiver / move to thread / move to forked process), canonical-state dedup; every transition is replayed from scratch on the real API as (shortest path to its source state + the operation) and every result compared; after the last operation every held receiver for which the model predicts Empty/Disconnected is probed. E1 part: one evaluation = one schedule of droppers racing a blocked/timed/polling receiver; schedules are distinct by construction (the depth-first search never repeats a choice sequence) and a schedule counts as non-trivial when it contains at least one context switch; enumerated cases are distinct by construction; model paths are distinct operation sequences, each counted as non-trivial (at least one operation with its result compared)"));
+    rep.set("rule", json!("model part: BFS over the reference model's state graph (operations clone / drop / send / embed sender / embed receiver / receive x3 variants / drop receiver / move to thread / move to forked process), canonical-state dedup; every transition is replayed from scratch on the real API as (shortest path to its source state + the operation) and every result compared; after the last operation every held receiver for which the model predicts Empty/Disconnected is probed. exec cases: the last sender handle is one received inside a message (recv / try_recv / try_recv_timeout / select), an unrelated child is exec'ed and stays alive, the handle is dropped: the receiver must be told 'disconnected'. E1 part: one evaluation = one schedule of droppers racing a blocked/timed/polling receiver; schedules are distinct by construction (the depth-first search never repeats a choice sequence) and a schedule counts as non-trivial when it contains at least one context switch; enumerated cases are distinct by construction; model paths are distinct operation sequences, each counted as non-trivial (at least one operation with its result compared)"));
     rep.assume("canonical form merges handles of the same channel in the same state (they are interchangeable) and ignores payload tags");
     rep.assume("channel families are acyclic (an endpoint only travels over a lower-numbered channel); the quantifier's 6 channels are not reached (3 quick / 4 thorough)");
 }
 
 pub fn replay(tier: Tier, v: &Value) -> i32 {
     let v = if v.get("variant").is_some() { &v["case"] } else { v };
+    if v["engine"] == "exec-case" {
+        let how = v["how"].as_u64().unwrap_or(0) as u8;
+        for r in 0..2 {
+            let out = crate::exec::run_one(&Cfg::default(), 60.0, &|| exec_body(&how));
+            println!("replay round {}: exec case {} -> {:?}", r, how, super::describe(&out));
+        }
+        return 0;
+    }
     if v["engine"] == "model-path" {
         let nchan = v["nchan"].as_u64().unwrap_or(3) as usize;
         let Ok(p) = serde_json::from_value::<Vec<Op>>(v["path"].clone()) else { return 2 };
